@@ -53,7 +53,9 @@ Init == \/ /\ mode = "conv" /\ target \in Kinds
            /\ v.kind = w.kind /\ Leq(v, w)
            \* pairs: same base, or neighbouring magnitude classes
            /\ Rank(w.base) - Rank(v.base) <= 1
-        \/ /\ mode = "now" /\ target = "abs" /\ v = V("abs", "epoch", 0, 0) /\ w = v
+        \* `now` of a wall-clock scheduler, read in a process whose LOCAL time zone is zone number v.k
+        \* (0 = UTC, 1 = east of it, 2 = west of it): the local zone must not matter
+        \/ /\ mode = "now" /\ target = "abs" /\ v \in {V("abs", "epoch", z, 0) : z \in 0..2} /\ w = v
 Next == UNCHANGED vars
 
 (* ---- the abstract conversion ------------------------------------------------------------------- *)
@@ -90,11 +92,18 @@ OrderPreserved == mode = "conv" =>
 \* a non-aligned float lands on a neighbouring microsecond
 Neighbour == mode = "conv" => \A r \in ConvSet(target, v) : r.base = v.base /\ r.k \in {v.k, v.k + 1}
 
+\* the instant `now` denotes does not depend on the local zone of the process
+NowSkew(zone) == 0
+NowIndependentOfZone == mode = "now" => \A z \in 0..2 : NowSkew(z) = NowSkew(v.k)
+
 (* ---- export ---------------------------------------------------------------------------------------- *)
 Res(S) == {[base |-> r.base, k |-> r.k, q |-> r.q] : r \in S}
 Export ==
     IF mode = "now"
-    THEN PrintT(ToJson([scn |-> [mode |-> "now"], obs |-> [aware |-> TRUE, utcoffset |-> 0]]))
+    THEN PrintT(ToJson([scn |-> [mode |-> "now", zone |-> v.k],
+                        \* an aware datetime with zero UTC offset that denotes the present instant (skew 0 against the
+                        \* process clock) whatever the process's local zone is
+                        obs |-> [aware |-> TRUE, utcoffset |-> 0, skew |-> NowSkew(v.k)]]))
     ELSE PrintT(ToJson([scn |-> [mode |-> "conv", kind |-> v.kind, target |-> target,
                                  v |-> [base |-> v.base, k |-> v.k, q |-> v.q], w |-> [base |-> w.base, k |-> w.k, q |-> w.q]],
                         obs |-> [rv |-> Res(ConvSet(target, v)), rw |-> Res(ConvSet(target, w)),
